@@ -12,7 +12,6 @@ func init() {
 			"symbolic operand pairing, byte-layout extraction", Ref: "DESIGN.md §4 C01"})
 
 	notApplicable["C02"] = "End-to-end acceptance of combinator-built paths by every router depends on concrete MACs, interface numbers and topologies (runtime values); no shape of the code implies it. Its structural preconditions are claimed under C01/C04/C22/C23."
-	notApplicable["C29"] = "Completeness of a graph search (every valid combination is returned) is a semantic property of an algorithm over arbitrary inputs; no necessary structural condition short of re-implementing it."
 }
 
 // pending marks properties whose rules are not implemented yet (moved to
